@@ -35,6 +35,7 @@ fn engine_by_name(n: &str) -> Option<Box<dyn Engine>> {
         "pq" => Some(Box::new(engines::pq::Pq)),
         "sched" => Some(Box::new(engines::sched::Sched)),
         "task" => Some(Box::new(engines::task::TaskEngine)),
+        "queue" => Some(Box::new(engines::queue::QueueEngine)),
         "synccell" => Some(Box::new(engines::synccell::SyncCellEngine)),
         _ => None,
     }
